@@ -73,8 +73,8 @@ def _m(action, obs, **kw):
     return dict(pair=action[1], N=min(obs['nvol'] + bool(obs['light']), 3), light=obs['light'], heavy=obs['heavy'], **kw)
 
 def _norm(action, obs):
-    """('vle','Tp',T,frac) is a (T,P) specification whose pressure was resolved against my own envelope"""
-    if action[1] == 'Tp': return ('vle', 'TP', float(obs['kw']['T']), float(obs['kw']['P']))
+    """('vle','Tp',T,frac) / ('vle','Tq',T,rel) are (T,P) specifications whose pressure was resolved against my own envelope"""
+    if action[1] in ('Tp', 'Tq'): return ('vle', 'TP', float(obs['kw']['T']), float(obs['kw']['P']))
     return action
 
 def check_exact(st, action, obs):
@@ -224,8 +224,30 @@ def check_V(st, action, obs):
         raise Violation('V-spec-flows', f'{action!r} on {st.config!r}: vapour fraction of the returned flows {Vs!r} but the reference flash at the '
                         f'returned T={T!r} P={P!r} gives {Vmid!r}', match=dict(m, vs='ref'), residual=abs(Vs - Vmid))
 
+def check_TP_pure(st, action, obs):
+    """(T,P) with exactly ONE volatile chemical (alone or beside a non-volatile solute that does not dissociate, N_solutes = 0): all vapour below
+    Psat(T), all liquid above it.  The library states its own tolerance: 1e-3 Pa (absolute); 2e-3 Pa is used here."""
+    vol, light, heavy, tot = vc.classify(st)
+    if len(vol) != 1 or light: return False
+    ch = st.s.chemicals
+    if any(tot[i] and ch._heavy_solutes[k] for k, i in enumerate(ch._heavy_indices)): return False
+    d = vc.dense_by_phase(st.s)
+    if any(a[vol[0]] for p, a in d.items() if p not in ('g', 'l')): return False
+    T = float(st.s.T); P = float(st.s.P)
+    Ps = float(ch.tuple[vol[0]].Psat(T))
+    if T >= ch.tuple[vol[0]].Tc: return True
+    if P > Ps + 2e-3: expect = 'L'
+    elif P < Ps - 2e-3: expect = 'V'
+    else: return True
+    if obs['branch'] != expect:
+        raise Violation('phase-boundary', f'{action!r} on {st.config!r}: pure {ch.IDs[vol[0]]}: Psat(T) = {Ps!r}, P = {P!r} (P/Psat - 1 = {P / Ps - 1.:.3g}) => expected {expect}, '
+                        f'library returned {obs["branch"]}', match=dict(_m(action, obs), expected=expect, got=obs['branch'], n1=True),
+                        detail=dict(Psat=Ps))
+    return True
+
 def check_TP(st, action, obs, ideal):
     if action[1] != 'TP': return
+    if check_TP_pure(st, action, obs): return
     vs = _volatile_state(st)
     if vs is None: return
     ref, z, x, y, Vs, vol, gv, lv, F = vs
@@ -274,6 +296,8 @@ def make_oracle(reference=False, ideal=False, scaling=False):
         if reference:
             check_V(st, action, obs)
             check_TP(st, action, obs, ideal)
+        elif action[1] == 'TP':
+            check_TP_pure(st, action, obs)
         if scaling:
             check_scaling(system, st, action, obs)
     return oracle
@@ -434,6 +458,13 @@ IDEAL_GRIDS = [
 IDEAL_GRIDS.append(
     CompGrid('ORDi', subsets(('Methanol', 'Water', 'Propanol')), ('eq', 'lo0'), ('eq', 'lo0', 'hi-1'), ('l', 'g'), _calls, call_coords,
              bases=[B(('Methanol', 'Water', 'Propanol'), 'eq', (), 'l', 'TP'), B(('Water', 'Propanol'), 'lo0', (), 'g', 'PV'), B(('Methanol', 'Propanol'), 'eq', (), 'l', 'TV')]))
+# one member above its critical temperature: SC = (Propane [Tc 369.9 K], Hexane, Octane), SCW = (CO2 [Tc 304.1 K], Water, Ethanol); ideal packages
+IDEAL_GRIDS.append(
+    CompGrid('SCi', [c for c in subsets(vc.package_ids('SC')) if 'Propane' in c and len(c) > 1], ('eq', 'lo0'), ('eq', 'lo0', 'hi-1'), ('l', 'g'), _calls, call_coords,
+             bases=[B(('Propane', 'Octane'), 'lo0', (), 'l', 'TP'), B(('Propane', 'Hexane', 'Octane'), 'eq', (), 'g', 'TP')]))
+IDEAL_GRIDS.append(
+    CompGrid('SCWi', [c for c in subsets(vc.package_ids('SCW')) if 'CO2' in c and len(c) > 1], ('eq', 'lo0'), ('eq', 'lo0', 'hi-1'), ('l', 'g'), _calls, call_coords,
+             bases=[B(('CO2', 'Water', 'Ethanol'), 'lo0', (), 'l', 'TP'), B(('CO2', 'Ethanol'), 'eq', (), 'g', 'TP')]))
 VLE_VOL = ('Water', 'Ethanol', 'Propanol')
 SPEC_GRID = CompGrid('VLE', subsets(VLE_VOL), ('eq', 'lo0', 'hi-1'), PATTERNS, DISTS, _calls, call_coords,
                      bases=[B(('Water', 'Ethanol'), 'eq', ('N2', 'Glucose'), 'l', 'PH'), B(VLE_VOL, 'lo0', (), 'half', 'PS'),
@@ -478,6 +509,28 @@ def phi_configs(system, tier, seed):
 def phi_actions(system, st):
     if st.n_calls >= 1: return []
     return list(PHI_CALLS_Q if system.tier == 'quick' else PHI_CALLS_T)
+
+# ---- exactly one volatile chemical, (T,P) around its saturation pressure, from both prior phases -------------------------------------------
+PURE_REL = (1e-6, -1e-6, 5e-4, -5e-4, 2e-3, -2e-3, 1e-2, -1e-2, 1e-8, -1e-8)
+def pure_configs(system, tier, seed):
+    out = []
+    pure = [('VLE', 'Water'), ('VLE', 'Ethanol'), ('ALC', 'Methanol'), ('ALC', '1-Butanol'), ('HC', 'Hexane'), ('HC', 'Toluene')]
+    if tier != 'quick': pure += [('VLE', 'Propanol'), ('ALC', 'Ethanol'), ('ALC', 'Propanol'), ('HC', 'Heptane'), ('HC', 'Octane'), ('HC', 'Benzene'), ('ALCi', 'Methanol'), ('HCi', 'Octane')]
+    for pkg, ID in pure:
+        for extra in (((), ('Glucose',)) if pkg == 'VLE' else ((),)):
+            for dist in ('l', 'g', 'half') if tier != 'quick' else ('l', 'g'):
+                out.append(_cfg(pkg, (ID,), 'eq', extra, dist))
+    k = seed % len(out)
+    return out[k:] + out[:k]
+def pure_actions(system, st):
+    if st.n_calls >= 1: return []
+    Ts = (350.,) if system.tier == 'quick' else (300., 350., 400.)
+    rel = PURE_REL[:6] if system.tier == 'quick' else PURE_REL
+    return [('vle', 'Tq', T, r) for T in Ts for r in rel]
+def pure_oracle(system, st, action, before, obs):
+    make_oracle()(system, st, action, before, obs)
+def pure_nontrivial(system, st, a, obs):
+    return not isinstance(obs, tuple) and obs.get('branch') in ('L', 'V')
 
 # scaling: reduced grid (three flashes per case)
 SCALE_PAIRS = ('TP', 'TV', 'PV', 'PH', 'PS', 'TH', 'TS')
@@ -626,6 +679,9 @@ SYSTEMS = [
                 describe=describe_multi(MultiGrid([SPEC_GRID]))),
     FlashSystem('c04.family.grid', FAMILY.enum_configs, FAMILY.enum_actions, make_oracle(reference=True), 1, 1, describe=describe_multi(FAMILY)),
     FlashSystem('c04.ideal.grid', IDEAL.enum_configs, IDEAL.enum_actions, make_oracle(reference=True, ideal=True), 1, 1, describe=describe_multi(IDEAL)),
+    FlashSystem('c04.pure', pure_configs, pure_actions, pure_oracle, 1, 1, nontrivial=pure_nontrivial,
+                describe=dict(what='(T,P) flash of exactly one volatile chemical (alone / with Glucose) at P = Psat(T) x (1 + rel), rel = +-1e-6, +-5e-4, +-2e-3 (thorough also +-1e-2, +-1e-8), '
+                              'from an all-liquid and an all-vapour feed (thorough: and half/half); oracle: P < Psat - 2e-3 Pa => all vapour, P > Psat + 2e-3 Pa => all liquid')),
     FlashSystem('c04.phi', phi_configs, phi_actions, his_oracle, 1, 1,
                 describe=dict(package='HCpr = HC chemicals with Dortmund gamma and Peng-Robinson phi', calls='PHI_CALLS_Q (quick) / PHI_CALLS_T (thorough)',
                               compositions='quick: 3 binaries + 3 ternaries x 2 patterns; thorough: every 2- and 3-subset of HC + Octane + all five, 3 patterns')),
